@@ -95,12 +95,12 @@ impl Package {
        subs=[ret(),
              ('pub fn signature_key_ids', '#[verifier::loop_isolation(false)]\n    pub fn signature_key_ids', 1, 'verifier attribute: facts about variables the loop does not modify stay available'),
              ('base64_sig.as_bytes()', 'string_as_bytes(base64_sig)', 1, 'A-UTF8'),
-             (re.compile(r'let new_key_ids: Vec<String> = signature\s*\.issuer\(\)\s*\.iter\(\)\s*\.map\(\|x\| format!\("\{:x\}", x\)\)\s*\.collect\(\);'),
-              'let new_key_ids: Vec<String> = issuer_ids_hex(&signature);', 1, 'R34-issuer ids formatted as hexadecimal'),
-             (re.compile(r'let key_ids: Vec<String> = signature\?\s*\.issuer\(\)\s*\.iter\(\)\s*\.map\(\|x\| format!\("\{:x\}", x\)\)\s*\.collect\(\);'),
-              'let sig_parsed = signature?;\n            let key_ids: Vec<String> = issuer_ids_hex(&sig_parsed);', 1, 'R34-issuer ids formatted as hexadecimal'),
+             (re.compile(r'let (\w+): Vec<String> = (\w+)\s*\.issuer\(\)\s*\.iter\(\)\s*\.map\(\|(\w+)\| format!\("\{:x\}", \3\)\)\s*\.collect\(\);'),
+              r'let \1: Vec<String> = issuer_ids_hex(&\2);', 1, 'R34-issuer ids formatted as hexadecimal'),
+             (re.compile(r'let (\w+): Vec<String> = (\w+)\?\s*\.issuer\(\)\s*\.iter\(\)\s*\.map\(\|(\w+)\| format!\("\{:x\}", \3\)\)\s*\.collect\(\);'),
+              r'let sig_parsed = \2?;\n            let \1: Vec<String> = issuer_ids_hex(&sig_parsed);', 1, 'R34-issuer ids formatted as hexadecimal'),
              (re.compile(r'(\w+)\.len\(\)\.try_into\(\)\.unwrap\(\)'), r'count_u32(\1.len())', None, 'R12-usize into the error payload'),
-             ('key_ids.extend(new_key_ids);', 'vec_extend(&mut key_ids, new_key_ids);', 1, 'R12-Vec::extend'),
+             (re.compile(r'\bkey_ids\.extend\((\w+)\);'), r'vec_extend(&mut key_ids, \1);', 1, 'R12-Vec::extend'),
              ('decoder.read_to_end(&mut signature)?;', 'decoder.read_to_end(&mut signature)?;\n                proof { assert(signature@ =~= b64_bytes(utf8(base64_sig@))->0); }', 1, 'proof hint (no code change)'),
              ],
        spec='''    ensures
